@@ -1,9 +1,15 @@
 #!/bin/sh
-# Re-run every registered quick check on /repo's current tree (regenerates every evidence file). Usage: tools/run_all.sh [tier]
+# Re-run every registered check on /repo's current tree (regenerates every evidence file). Usage: tools/run_all.sh [tier]
+# Full output of each check is kept in out/logs/<id>-<tier>.log (and .prev) so that an intermittent result can be diagnosed.
 cd "$(dirname "$0")/.."
 TIER=${1:-quick}
+mkdir -p out/logs
 rc=0
 for id in $(python3 -c "import sys; sys.path.insert(0,'tools'); import props; print(' '.join(sorted(props.PROPS)))"); do
-  ./check $id --tier $TIER | tail -1 || rc=1
+  log=out/logs/$id-$TIER.log
+  [ -f $log ] && mv $log $log.prev
+  ./check $id --tier $TIER > $log 2>&1 || rc=1
+  tail -1 $log
+  grep -h "^UNDECIDED property=$id reason\|^VIOLATION" $log | cut -c1-400
 done
 exit $rc
